@@ -8,6 +8,8 @@ package c13
 
 import (
 	"fmt"
+	"os"
+	"runtime/debug"
 	"sort"
 	"strconv"
 	"strings"
@@ -21,6 +23,9 @@ import (
 const sentinel = "-" // the only operation enabled in a state that is not to be expanded
 
 func init() {
+	// every replay builds fresh packages whose tables are copies of cl-user's
+	// (thousands of entries): trade memory for fewer collections
+	debug.SetGCPercent(800)
 	engine.Register(&engine.Prop{
 		ID:    "C13",
 		Level: "model_checking",
@@ -69,6 +74,9 @@ func init() {
 }
 
 func fullDepth(tier string) int {
+	if v, err := strconv.Atoi(os.Getenv("VERIF_C13_FULLDEPTH")); err == nil && 0 < v && v < 10 {
+		return v // development aid only
+	}
 	if tier == engine.Thorough {
 		return 5
 	}
